@@ -1337,6 +1337,23 @@ def optimize_root(I, fun, x0=None, tol=None, **kw):
     return res
 
 
+def integrate_quad(I, f, a, b, **kw):
+    """scipy.integrate.quad has no accuracy contract: the result is an uninterpreted number; integrand and limits are recorded"""
+    assumed(I, 'quad')
+    x = I.fresh('quad_x')
+    y = lift(I.call(f, [SV(x)], {}))
+    q = I.fresh('quad_result')
+    I.quad_records.append({'x': x, 'integrand': y.t, 'lower': lift(a).t, 'upper': lift(b).t, 'value': q})
+    return (SV(q), SV(I.fresh('quad_err')))
+
+
+def np_trapezoid(I, y, x=None, **kw):
+    y = lift(y)
+    q = I.fresh('trapz_result')
+    I.quad_records.append({'integrand': y.t, 'x': lift(x).t if x is not None else None, 'value': q, 'kind': 'trapezoid'})
+    return SV(q)
+
+
 def np_invert(I, x):
     x = lift(x)
     if x.is_bool:
@@ -1662,6 +1679,8 @@ def b_list(I, x=()):
 
 
 def b_hasattr(I, x, name):
+    if isinstance(x, LibNS):
+        return name in x.table
     if isinstance(x, Obj):
         return name in x.fields or x.cls.lookup(name)[1] is not None
     if name == '__iter__':
@@ -1776,6 +1795,7 @@ def make_libs(I):
     I.reductions = {}
     I.reduction_uses = []
     I.root_records = []
+    I.quad_records = []
 
     def opaque_attr(base, attr):
         if isinstance(base.tag, tuple) and base.tag[0] == 'external':
@@ -1804,7 +1824,7 @@ def make_libs(I):
         'logical_and': Builtin('logical_and', lambda a, b: logical_and(I, a, b)),
         'logical_or': Builtin('logical_or', lambda a, b: _mk(I, z3.Or(lift(a).t, lift(b).t), lift(a), lift(b))),
         'empty': L(np_empty), 'arange': L(np_arange), 'cumsum': L(np_cumsum), 'insert': L(np_insert), 'append': L(np_append),
-        'concatenate': L(np_concatenate), 'searchsorted': L(np_searchsorted), 'isclose': L(np_isclose), 'all': L(np_all), 'any': L(np_any), 'sum': L(np_sum), 'dot': L(np_dot),
+        'concatenate': L(np_concatenate), 'searchsorted': L(np_searchsorted), 'isclose': L(np_isclose), 'all': L(np_all), 'any': L(np_any), 'sum': L(np_sum), 'dot': L(np_dot), 'trapezoid': L(np_trapezoid), 'trapz': L(np_trapezoid),
         'inf': SV(float('inf')), 'pi': SV(z3.Real('PI')), 'nan': Opaque('nan'),
         'float64': Opaque('float64'), 'double': Opaque('float64'), 'uintp': Opaque('uintp'), 'int64': Opaque('int64'),
         'bool_': Opaque('bool'), 'int8': Opaque('int8'),
@@ -1862,9 +1882,10 @@ def make_libs(I):
 
     stats_norm = LibNS('norm', {'ppf': Builtin('ppf', norm_ppf), 'cdf': Builtin('cdf', norm_cdf), 'pdf': Builtin('pdf', norm_pdf)})
     stats = LibNS('stats', {'norm': stats_norm})
-    scipy = LibNS('scipy', {'optimize': optimize, 'stats': stats})
+    integrate = LibNS('integrate', {'quad': L(integrate_quad)})
+    scipy = LibNS('scipy', {'optimize': optimize, 'stats': stats, 'integrate': integrate})
     libs = {'numpy': np_, 'np': np_, 'pandas': pd_, 'pd': pd_, 'scipy': scipy, 'scipy.optimize': optimize,
-            'scipy.stats': stats, 'math': LibNS('math', {'fabs': L(np_abs), 'sqrt': L(np_sqrt), 'log10': L(np_log10), 'log': L(np_log), 'exp': L(np_exp), 'pi': SV(z3.Real('PI'))}),
+            'scipy.stats': stats, 'scipy.integrate': integrate, 'math': LibNS('math', {'fabs': L(np_abs), 'sqrt': L(np_sqrt), 'log10': L(np_log10), 'log': L(np_log), 'exp': L(np_exp), 'pi': SV(z3.Real('PI'))}),
             'warnings': LibNS('warnings', {'warn': Builtin('warn', lambda *a, **k: None),
                                            'catch_warnings': Builtin('cw', lambda *a, **k: Opaque('ctx')),
                                            'simplefilter': Builtin('sf', lambda *a, **k: None)}),
